@@ -19,7 +19,7 @@ EXPLANATION = (
     'callbacks on the connection and on proxies obtained with explicit and with introspected interfaces loses its transport: '
     'every call fails once with the reason, no timer is left, each callback ran once, and later replies / clock advances fire '
     'nothing. All variables are finite selectors: the solver contributes exhaustive coverage of crash points and vectors.')
-BOUNDS = {'quick': 'addr: 4 address lists x all reachability vectors (<= 4 entries); crash: 4 transcripts x every byte offset; lost: j <= 3 calls x deadline masks x reply-before-loss choices',
+BOUNDS = {'quick': 'addr: 7 address lists x all reachability vectors (<= 4 entries); crash: 4 transcripts x every byte offset; lost: j <= 3 calls x deadline masks x reply-before-loss choices',
           'thorough': 'same (the spaces are exhausted in quick); lost with j <= 4'}
 ASSUMPTIONS = ['real sockets, DNS and launchd addresses are outside the claim (fake endpoints)',
                'the transport reports connectionLost after loseConnection() (as Twisted does)']
@@ -29,8 +29,20 @@ STUBS = ['FakeEndpoint patched into txdbus.endpoints (UNIXClientEndpoint / TCP4C
 ADDRS = ['unix:path=/a;tcp:host=h,port=1;nonce-tcp:host=h,port=2',
          'garbage;unix:abstract=x;;tcp:host=h,port=9',
          'unix:tmpdir=/t',
-         'launchd:env=X;unix:path=/only;bogus:foo=bar;tcp:host=a,port=2']
-NEP = [3, 2, 1, 2]
+         'launchd:env=X;unix:path=/only;bogus:foo=bar;tcp:host=a,port=2',
+         'unix:path=/a;unix:abstract=x;unix:tmpdir=/t',
+         'unix:tmpdir=/t;nonce-tcp:host=h,port=3;unix:abstract=x;tcp:host=g,port=4',
+         'tcp:host=h,port=1;tcp:host=g,port=1;unix:path=/b;unix:path=/c']
+NEP = [3, 2, 1, 2, 3, 4, 4]
+# where each usable entry of the list points (written from the address syntax of the specification, not from the
+# code): ('unix', path) / ('unixdir', directory) / ('tcp', host, port)
+TARGETS = [[('unix', '/a'), ('tcp', 'h', 1), ('tcp', 'h', 2)],
+           [('unix', '\0x'), ('tcp', 'h', 9)],
+           [('unixdir', '/t')],
+           [('unix', '/only'), ('tcp', 'a', 2)],
+           [('unix', '/a'), ('unix', '\0x'), ('unixdir', '/t')],
+           [('unixdir', '/t'), ('tcp', 'h', 3), ('unix', '\0x'), ('tcp', 'g', 4)],
+           [('tcp', 'h', 1), ('tcp', 'g', 1), ('unix', '/b'), ('unix', '/c')]]
 
 
 def obligations(tier):
@@ -77,7 +89,16 @@ def _patch_endpoints(endpoints, reach, log):
             counter[0] += 1
             self.args = (a, kw)
 
+        def target(self):
+            a, kw = self.args
+            if 'path' in kw or (len(a) == 1 and not kw):
+                return ('unix', kw.get('path', a[0] if a else None))
+            host = kw.get('host', a[0] if a else None)
+            port = kw.get('port', a[1] if len(a) > 1 else None)
+            return ('tcp', host, port)
+
         def connect(self, factory):
+            log.append(('target', self.idx, self.target()))
             log.append(('try', self.idx))
             if not reach[self.idx]:
                 return defer.fail(ConnectError(string='unreachable %d' % self.idx))
@@ -145,6 +166,14 @@ def build(family, p):
             finally:
                 _unpatch(endpoints, saved)
             tries = [e[1] for e in log if e[0] == 'try']
+            for e in log:
+                if e[0] == 'target' and e[1] < n:
+                    want, got = TARGETS[ai][e[1]], e[2]
+                    if want[0] == 'unixdir':
+                        check(got[0] == 'unix' and isinstance(got[1], str) and got[1].startswith(want[1] + '/'),
+                              'a listed address is tried at another socket than the one it names')
+                    else:
+                        check(got == want, 'a listed address is tried at another socket than the one it names')
             first = next((i for i in range(n) if reach[i]), None)
             if first is None:
                 check(tries == list(range(n)), 'every address must be tried, in listed order')
